@@ -14,6 +14,6 @@ K2 == {"T1.A.1", "T2.A.1"}
 NoDanglingDown == ~up => NoDangling
 (* vacuity witnesses: each must be VIOLATED (reachable) *)
 NeverOldAnswer  == rep # "old"
-NeverOrphanBlob == ~(\E n \in DOMAIN blobs : n \notin Range(prime) /\ ~up)
-NeverLostRecord == ~(~up /\ nev > 0 /\ \E n \in DOMAIN blobs : n \notin Range(dprime))
+NeverOrphanBlob == ~(\E n \in DOMAIN blobs : n \notin Rng(prime) /\ ~up)
+NeverLostRecord == ~(~up /\ nev > 0 /\ \E n \in DOMAIN blobs : n \notin Rng(dprime))
 =============================================================================
